@@ -71,11 +71,11 @@ def run(ctx):
         for t in types:
             if t in filecamp.SKIP_SYNTH:
                 continue
-            vs = gvers if (t in geom or ctx.tier == "thorough") else [rng.choice(gvers), rng.choice(gvers)]
-            for v in vs:
-                mix = t if t not in geom else t + "+" + rng.choice(["NiTriShapeData", "NiTriStripsData", "NiLinesData", "NiNode"])
-                lines.append(f"c11.run synth:{mix}:{v}:{rng.randrange(1, 10**6)}:2:{rng.choice([3, 9])} {rng.choice(scen[:3])} {rng.randrange(1, 10**6)}")
-                labels.append(f"{mix}/{v}")
+            for v in gvers:
+                for rep in range(2 if ctx.tier == "thorough" else 1):
+                    mix = t if t not in geom else t + "+" + rng.choice(["NiTriShapeData", "NiTriStripsData", "NiLinesData", "NiNode"])
+                    lines.append(f"c11.run synth:{mix}:{v}:{rng.randrange(1, 10**6)}:3:{rng.choice([3, 9, 9])} {rng.choice(scen[:3])} {rng.randrange(1, 10**6)}")
+                    labels.append(f"{mix}/{v}")
     out = C.run_lines_parallel(ctx.harness, lines, timeout=3000)
     bad, corr, skipped, nontrivial, landing_kinds = [], [], 0, 0, {}
     mlines, midx = [], []
